@@ -1512,6 +1512,145 @@ for pid_, extra, stmt in (
     }
 
 
+# ----------------------------------------------------------------------------- C06: ODR validity
+ODR_MAKERS = ['config_accel', 'config_interrupts', 'config_gen1_int', 'config_gen2_int', 'config_actchg_int']
+ODR_NAMES = sorted(ds.ENUMS['OutputDataRate'])
+
+
+def odr_rules_violated(regs):
+    """indices of the datasheet rules (spec/datasheet.py ODR_RULES) the register file violates"""
+    out = []
+    odr = regs[ds.REGS[ds.ODR_REG][0]] & ds.ODR_MASK
+    for i, (e, em, sr, sm, code, kind) in enumerate(ds.ODR_RULES):
+        if not regs[ds.REGS[e][0]] & em:
+            continue
+        if sr and regs[ds.REGS[sr][0]] & sm:
+            continue
+        if odr != code:
+            out.append(i)
+    return out
+
+
+def odr_programs(api, rng, n, faults=True):
+    """walks through ODR / enable / source requests (accepted and rejected), other builders, self-tests and resets, some calls cut by a bus fault"""
+    out = []
+    ints = [s['method'] for s in api.maker['config_interrupts']['setters']]
+    hot = ['with_gen1_int', 'with_gen2_int', 'with_actch_int', 'with_d_tap_int', 'with_s_tap_int']
+    for k in range(n):
+        calls = []
+        for _ in range(rng.randint(5, 11)):
+            x = rng.random()
+            if x < 0.25:
+                c = Call('config_accel', setters=[('with_odr', [rng.choice(['Hz100', 'Hz200', 'Hz100', 'Hz200'] + ODR_NAMES)])])
+            elif x < 0.50:
+                st = [(m, [rng.random() < 0.6]) for m in rng.sample(hot, rng.randint(1, 3))]
+                if rng.random() < 0.3:
+                    st += [(m, [rng.random() < 0.5]) for m in rng.sample(ints, 2)]
+                c = Call('config_interrupts', setters=st)
+            elif x < 0.75:
+                mk = rng.choice(['config_gen1_int', 'config_gen2_int', 'config_actchg_int'])
+                st = [('with_src', [rng.choice(['AccFilt1', 'AccFilt2', 'AccFilt1', 'AccFilt2Lp'])])] if rng.random() < 0.8 else []
+                if rng.random() < 0.4:
+                    st += P.rand_setters(api, rng, api.maker[mk], 1)
+                c = Call(mk, setters=st)
+            elif x < 0.80:
+                c = Call('perform_self_test')
+            elif x < 0.84:
+                c = Call('soft_reset')
+            else:
+                mk = rng.choice(sorted(api.maker))
+                c = Call(mk, setters=P.rand_setters(api, rng, api.maker[mk], rng.choice([0, 1, 2])))
+            if faults and rng.random() < 0.15:
+                c.faults = [rng.randint(0, 12)]
+            calls.append(c)
+        out.append(Prog('od%d' % k, 'i2c' if faults else rng.choice(['i2c', 'spi']), calls, pos=bytes([0, 8] * 3), neg=bytes(6)))
+    return out
+
+
+def check_odr(prog, recs):
+    for r in recs[1:]:
+        if r.status == 'panic':
+            return 'panic in %r' % (r.call,)
+        if r.regs is not None:
+            bad = odr_rules_violated(r.regs)
+            if bad:
+                e, em, sr, sm, code, kind = ds.ODR_RULES[bad[0]]
+                return ('after %r (%s) the device has %s & 0x%02X enabled%s at ACC_CONFIG1 = 0x%02X (ODR field must be %d)'
+                        % (r.call, r.result_str(), e, em, ' on filter 1' if sr else '', r.regs[ds.REGS[ds.ODR_REG][0]], code))
+        if r.call.op not in dseval.MAKER_BUILDER or r.regs_before is None or r.call.faults:
+            continue
+        rejected = r.status == 'err' and r.err == 'ConfigBuildError'
+        if r.call.op not in ODR_MAKERS:
+            if rejected:
+                return '%r was rejected (%s) although it cannot change a register of the ODR rules' % (r.call, r.tok)
+            continue
+        want = dseval.expected_block(r.call.op, r.call.setters, r.regs_before)
+        asked = list(r.regs_before)
+        for a, v in want.items():
+            asked[a] = v
+        bad = odr_rules_violated(asked)
+        ev = implrun.reg_events(r.raw)
+        if rejected:
+            kind = {'TapIntEnabledInvalidODR': 0, 'Filt1InterruptInvalidODR': 1}.get(r.tok)
+            if not bad:
+                return '%r was rejected (%s) although the requested state satisfies every ODR rule' % (r.call, r.tok)
+            if kind not in [ds.ODR_RULES[i][5] for i in bad]:
+                return '%r was rejected with %s, the rules the requested state violates are of the other kind' % (r.call, r.tok)
+            if ev or r.regs != r.regs_before:
+                return 'rejected %r changed the device or caused bus traffic %r' % (r.call, ev)
+        elif r.status == 'ok' and bad:
+            return '%r was accepted although the requested state violates ODR rule %d' % (r.call, bad[0])
+    return None
+
+
+def mon_c06(api, rng, budget, variants):
+    programs = odr_programs(api, rng, budget)
+    recs = run_monitor_programs(programs)
+    viol, cases, rej, acc = [], 0, 0, 0
+    for p in programs:
+        for r in recs[p.id][1:]:
+            cases += 1
+            if r.status == 'err' and r.err == 'ConfigBuildError':
+                rej += 1
+            elif r.ok() and r.call.op in ODR_MAKERS:
+                acc += 1
+        msg = check_odr(p, recs[p.id])
+        if msg:
+            viol.append(violation('C06', p, msg))
+    return {'cases': cases, 'violations': viol[:20], 'samples': [programs[0].describe()],
+            'notes': ['random walks over ODR / interrupt-enable / source requests, other builders, self-tests, resets, 15%% of the calls cut by a bus fault; '
+                      'device registers judged after every call against spec/datasheet.py ODR_RULES; %d rejections, %d accepted requests of the five deciding builders' % (rej, acc)]}
+
+
+def judge_c06(prog, recs):
+    return check_odr(prog, recs)
+
+
+def odr_theorems():
+    d = json.load(open(os.path.join(COQ, 'spec/odr_thms.json')))
+    return ([('spec.OdrThms', n) for n in d['odr'] + d['keeps']] + [('spec.OdrDecide', n) for n in d['decide']]
+            + [('props.C06', n) for n in ['keeps_self_test', 'step_keeps', 'c06_every_exit', 'c06_every_call', 'c06_every_history', 'c06_initial',
+                                          'c06_device_history', 'c06_reject_iff_accel', 'c06_reject_iff_interrupts']])
+
+
+PROPS['C06'] = {
+    'targets': ['spec/OdrThms.vo', 'spec/OdrDecide.vo', 'props/C06.vo'],
+    'theorems': odr_theorems,
+    'corr_gen': lambda api, rng, n: odr_programs(api, rng, n),
+    'corr_n': (250, 4000), 'monitor': mon_c06, 'monitor_n': (500, 20000), 'judge': judge_c06,
+    'statement': 'rule table from the datasheet (tap: ODR field = 200 Hz; generic 1/2 and activity change on filter 1: 100 Hz). (a) every API operation keeps the rules '
+                 'true of the shadow at every point where the call can end (return, rejection, panic, before every bus transaction), for every transport and fault plan: '
+                 'path-sensitive weakest-precondition proof over every generated builder body and the self-test, traversal of every other body (step_keeps, c06_every_exit); '
+                 '(b) with C16 the DEVICE satisfies the rules after every call of every history from a fresh driver (c06_device_history); (c) the five deciding builder bodies '
+                 'accept exactly the requests whose requested state satisfies the rules, a rejection leaves shadow and bus untouched and carries the error kind whose rules are '
+                 'violated (decide_<Builder>, c06_reject_iff_*); the other builders never reject (their failure postcondition is False)',
+    'rule': 'wpx: the rules as an obligation before every bus transaction and at every exit; obligations closed by monotonicity (clearing enable bits) or by kernel '
+            'evaluation over the bit tests and the 4-bit ODR field that occur in them',
+    'assumptions': ['(b) inherits the assumption of C16: a failed register transaction is not applied (T_reg fault model; over I2C it coincides with the HAL model)',
+                    '(c) the decision theorems take shadow and request bytes below 256 (u8 typing), as the C01 theorems they use'],
+}
+
+
 # ----------------------------------------------------------------------------- C10: self-test
 def selftest_programs(api, rng, n):
     out = []
@@ -1583,13 +1722,15 @@ def mon_c10(api, rng, budget, variants):
 
 PROPS['C10'] = {
     'targets': ['props/C10.vo', 'props/C16.vo'],
-    'theorems': [('props.C10', n) for n in ['c10_shape', 'c10_no_overflow', 'c10_setup', 'c10_cleanup', 'c10_verdict']] + [('props.C16', 'c16_every_history')],
+    'theorems': [('props.C10', n) for n in ['c10_shape', 'c10_no_overflow', 'c10_setup', 'c10_cleanup', 'c10_verdict', 'c10_restores_shadow', 'c10_restores']] + [('props.C16', 'c16_every_history')],
     'corr_gen': lambda api, rng, n: selftest_programs(api, rng, n),
     'corr_n': (200, 3000), 'monitor': mon_c10, 'monitor_n': (400, 10000), 'judge': check_selftest,
-    'statement': 'PARTIAL (the pieces are proved, their end-to-end composition "every register afterwards equals its value before" is not mechanised): '
-                 'perform_self_test is, by conversion, save; set-up; delay 2; 0x7D<-0x07; delay 50; one 6-byte read at 0x04; 0x7D<-0x0F; delay 50; one 6-byte read; '
+    'statement': 'perform_self_test is, by conversion, save; set-up; delay 2; 0x7D<-0x07; delay 50; one 6-byte read at 0x04; 0x7D<-0x0F; delay 50; one 6-byte read; '
                  'differences; 0x7D<-0x00; delay 50; clean-up from the saved shadow; verdict (c10_shape). Set-up writes INT_CONFIG0/1 <- 0, wake-up interrupt bit and '
                  'FIFO axis bits cleared, power mode normal with the other bits kept, ACC_CONFIG1 <- 0x78, interrupts off before the ODR changes (c10_setup, '
                  'symbolic execution). Clean-up writes the saved values of exactly those six registers back (c10_cleanup). No i16 overflow for 12-bit samples and '
-                 'Ok iff dx>1500, dy>1200, dz>250 (c10_verdict). The shadow equals the device through the procedure, aborted runs included (C16)',
+                 'Ok iff dx>1500, dy>1200, dz>250 (c10_verdict). End to end: whenever the procedure reaches its verdict (Ok or SelfTestFailedError) over the register-level transport, '
+                 'the shadow afterwards is the shadow before and every shadowed device register holds its previous value (c10_restores: wpx over the whole generated body + C16); '
+                 'the shadow equals the device through the procedure, aborted runs included (C16). Not covered by a theorem: the link from the served response bytes to the '
+                 'decoded samples inside the whole procedure is by C03 (get_unscaled_data) and the correspondence check',
 }
